@@ -255,7 +255,7 @@ PROGRAMS = [('p_transfer_incons', (s, t)) for s in (0, 1, 2) for t in (0, 1, 2)]
 
 
 def programs(tier):
-    extra = [('p_block_mapping_rect', (((3, 1, 3), 0, 2), ((4, 1, 2), 1))), ('p_block_mapping_rect', (((2, 2, 2), 1, 1), ((3, 2, 2), 2))), ('p_block_mapping_rect', (((2, 2, 3), 2, 1), ((2, 2, 2), 1))),
+    extra = [('p_block_mapping_rect', (((3, 1, 2), 0, 1), ((3, 1, 2), 1))), ('p_block_mapping_rect', (((2, 2, 2), 1, 1), ((3, 2, 2), 2))), ('p_block_mapping_rect', (((2, 2, 3), 2, 1), ((2, 2, 2), 1))),
              ('p_self_identity_rect', ((3, 2, 3), 0)), ('p_self_identity_rect', ((3, 3, 2), 1))]
     return PROGRAMS + (extra if tier == 'thorough' else [])
 
